@@ -1342,3 +1342,350 @@ Proof.
   - eapply IH; [|exact Hw|exact Hx]. intros e He. apply Hb. right. exact He.
 Qed.
 
+
+(* ==== PART 3: initial states, preservation of the invariant, validity of the modelled v2 writer ==== *)
+
+(* ------------------------------------------------------------------------------------------------ *)
+(* (a) freshly initialised bundles are well formed                                                  *)
+
+Lemma le_length : forall n k, length (le n k) = n.
+Proof. induction n as [|n IH]; intros k; cbn [le length]; [reflexivity|]. rewrite IH. reflexivity. Qed.
+
+Lemma zlen_le : forall n k, zlen (le n k) = Z.of_nat n.
+Proof. intros. unfold zlen. rewrite le_length. reflexivity. Qed.
+
+Lemma unle_le : forall n v, 0 <= v < 256 ^ Z.of_nat n -> unle (le n v) = v.
+Proof.
+  induction n as [|n IH]; intros v H.
+  - cbn [le unle]. change (256 ^ Z.of_nat 0) with 1 in H. lia.
+  - cbn [le unle]. rewrite Nat2Z.inj_succ, Z.pow_succ_r in H by lia.
+    rewrite IH.
+    + pose proof (Z.div_mod v 256). lia.
+    + split; [apply Z.div_pos; lia|]. apply Z.div_lt_upper_bound; lia.
+Qed.
+
+Lemma v2_init_byte : forall s k, 0 <= s < SLOTS -> (k < 8)%nat ->
+  fbyte v2_init (64 + 8 * s + Z.of_nat k) = if Nat.eqb k 0 then 4 else 0.
+Proof.
+  intros s k Hs Hk. unfold fbyte, v2_init. cbn [flen fat].
+  replace (0 <=? 64 + 8 * s + Z.of_nat k) with true by (symmetry; apply Z.leb_le; lia).
+  replace (64 + 8 * s + Z.of_nat k <? V2_REC) with true
+    by (symmetry; apply Z.ltb_lt; unfold V2_REC, SLOTS in *; lia).
+  replace (64 + 8 * s + Z.of_nat k <? 64) with false by (symmetry; apply Z.ltb_ge; lia).
+  cbn [andb].
+  replace (64 + 8 * s + Z.of_nat k - 64) with (Z.of_nat k + s * 8) by lia.
+  rewrite Z.mod_add by lia. rewrite Z.mod_small by lia.
+  destruct k as [|k]; [reflexivity|]. cbn [Nat.eqb].
+  destruct (Z.of_nat (S k) =? 0) eqn:E; [apply Z.eqb_eq in E; lia|reflexivity].
+Qed.
+
+Lemma v2_init_entry : forall s, 0 <= s < SLOTS -> v2_entry v2_init s = Some 4.
+Proof.
+  intros s Hs. unfold v2_entry, rdnum.
+  replace (64 + 8 * s + Z.of_nat 8 <=? flen v2_init) with true
+    by (symmetry; apply Z.leb_le; change (Z.of_nat 8) with 8; cbn [flen v2_init];
+        unfold V2_REC, SLOTS in *; lia).
+  unfold fread. cbn [seq map].
+  rewrite !v2_init_byte by (auto; lia). reflexivity.
+Qed.
+
+Lemma v2_init_wf : v2_wf v2_init.
+Proof.
+  split; [cbn [flen v2_init]; lia|].
+  intros slot Hs. unfold v2_slot_ok. rewrite v2_init_entry by exact Hs. reflexivity.
+Qed.
+
+Lemma v1_idx_init_byte : forall s k, 0 <= s < SLOTS -> (k < 5)%nat ->
+  fbyte v1_idx_init (16 + 5 * s + Z.of_nat k) = nth k (le 5 (60 + 4 * s)) 0.
+Proof.
+  intros s k Hs Hk. unfold fbyte, v1_idx_init. cbn [flen fat].
+  replace (0 <=? 16 + 5 * s + Z.of_nat k) with true by (symmetry; apply Z.leb_le; lia).
+  replace (16 + 5 * s + Z.of_nat k <? V1_IDX_END + 16) with true
+    by (symmetry; apply Z.ltb_lt; unfold V1_IDX_END, SLOTS in *; lia).
+  replace (16 + 5 * s + Z.of_nat k <? 16) with false by (symmetry; apply Z.ltb_ge; lia).
+  replace (16 + 5 * s + Z.of_nat k <? V1_IDX_END) with true
+    by (symmetry; apply Z.ltb_lt; unfold V1_IDX_END, SLOTS in *; lia).
+  cbn [andb].
+  replace (16 + 5 * s + Z.of_nat k - 16) with (Z.of_nat k + s * 5) by lia.
+  rewrite Z.mod_add, Z.div_add by lia.
+  rewrite Z.mod_small, Z.div_small by lia.
+  rewrite Nat2Z.id. cbn [Z.add]. reflexivity.
+Qed.
+
+Lemma v1_init_entry : forall c r s, 0 <= s < SLOTS ->
+  v1_entry (mkV1 (v1_dat_init c r) v1_idx_init) s = Some (60 + 4 * s).
+Proof.
+  intros c r s Hs. unfold v1_entry, rdnum. cbn [v1idx].
+  replace (16 + 5 * s + Z.of_nat 5 <=? flen v1_idx_init) with true
+    by (symmetry; apply Z.leb_le; change (Z.of_nat 5) with 5; cbn [flen v1_idx_init];
+        unfold V1_IDX_END, SLOTS in *; lia).
+  f_equal.
+  assert (E : fread v1_idx_init (16 + 5 * s) 5 = le 5 (60 + 4 * s)).
+  { rewrite <- (map_nth_seq0 (le 5 (60 + 4 * s))). rewrite le_length.
+    unfold fread. apply map_ext_in. intros k Hk. apply in_seq in Hk.
+    apply v1_idx_init_byte; [exact Hs|lia]. }
+  rewrite E. apply unle_le.
+  assert (256 ^ Z.of_nat 5 = 1099511627776) by reflexivity.
+  unfold SLOTS in *. lia.
+Qed.
+
+Lemma v1_dat_init_zero : forall c r i, 60 <= i -> fbyte (v1_dat_init c r) i = 0.
+Proof.
+  intros c r i H. unfold fbyte, v1_dat_init. cbn [flen fat].
+  replace (i <? 60) with false by (symmetry; apply Z.ltb_ge; lia).
+  destruct ((0 <=? i) && (i <? V1_REC)); reflexivity.
+Qed.
+
+Lemma v1_init_wf : forall c r, v1_wf (mkV1 (v1_dat_init c r) v1_idx_init).
+Proof.
+  intros c r. split; [cbn [v1dat flen v1_dat_init]; lia|].
+  split; [cbn [v1idx flen v1_idx_init]; lia|].
+  intros slot Hs. unfold v1_slot_ok. rewrite v1_init_entry by exact Hs.
+  replace (60 + 4 * slot =? 0) with false by (symmetry; apply Z.eqb_neq; lia).
+  replace (60 <=? 60 + 4 * slot) with true by (symmetry; apply Z.leb_le; lia).
+  cbn [orb andb v1dat]. unfold rdnum.
+  replace (60 + 4 * slot + Z.of_nat 4 <=? flen (v1_dat_init c r)) with true
+    by (symmetry; apply Z.leb_le; change (Z.of_nat 4) with 4; cbn [flen v1_dat_init];
+        unfold V1_REC, SLOTS in *; lia).
+  unfold fread. cbn [seq map]. rewrite !v1_dat_init_zero by lia.
+  cbn [unle]. apply Z.leb_le. cbn [flen v1_dat_init]. unfold V1_REC, SLOTS in *. lia.
+Qed.
+
+(* ------------------------------------------------------------------------------------------------ *)
+(* (b) well-formedness is preserved by every legal run                                              *)
+
+Lemma v2_crash_states_last : forall ops f, In (bw_apply_all f ops) (v2_crash_states f ops).
+Proof.
+  induction ops as [|w r IH]; intros f; [left; reflexivity|].
+  cbn [v2_crash_states]. right. apply in_or_app. right. apply IH.
+Qed.
+
+Lemma v1_crash_states_last : forall ops s, In (v1_apply_all s ops) (v1_crash_states s ops).
+Proof.
+  induction ops as [|o r IH]; intros s; [left; reflexivity|].
+  cbn [v1_crash_states]. right. apply in_or_app. right. apply IH.
+Qed.
+
+Theorem v2_wf_preserved : forall b f0 ops,
+  v2_wf f0 -> v2_raw_ok b (flen f0) f0 ops = true -> v2_wf (bw_apply_all f0 ops).
+Proof.
+  intros b f0 ops Hwf Hok.
+  assert (Hi : inv2 b f0 (fun _ => True) (bw_apply_all f0 ops)).
+  { apply (inv2_run b f0 (fun _ => True) (proj1 Hwf) ops f0); auto.
+    - apply inv2_init.
+    - apply v2_crash_states_last. }
+  destruct Hwf as [Hl Hok0]. destruct Hi as [[Hlen Hb] HP].
+  split; [lia|]. intros slot Hs.
+  destruct (HP slot Hs) as [H|[v [H1 [H2 _]]]].
+  - specialize (Hok0 slot Hs). unfold v2_slot_ok in *. rewrite H.
+    destruct (v2_entry f0 slot) as [v|]; [|discriminate].
+    apply orb_true_iff in Hok0. apply orb_true_iff. destruct Hok0 as [A|A]; [left; exact A|right].
+    apply andb_true_iff in A. destruct A as [A B]. apply Z.leb_le in B.
+    apply andb_true_iff. split; [exact A|]. apply Z.leb_le. lia.
+  - unfold v2_slot_ok. rewrite H1. unfold v2_published in H2.
+    rewrite !andb_true_iff in H2. destruct H2 as [[[A B] C] D].
+    apply Z.leb_le in B. apply orb_true_iff. right.
+    apply andb_true_iff. split; [apply Z.leb_le; lia|exact C].
+Qed.
+
+Theorem v1_wf_preserved : forall b s0 ops,
+  v1_wf s0 -> v1_raw_ok b (flen (v1dat s0)) s0 ops = true -> v1_wf (v1_apply_all s0 ops).
+Proof.
+  intros b s0 ops Hwf Hok.
+  assert (Hi : inv1 b s0 (fun _ => True) (v1_apply_all s0 ops)).
+  { apply (inv1_run b s0 (fun _ => True) (proj1 Hwf) ops s0); auto.
+    - apply inv1_init; [exact I|]. destruct Hwf as [_ [H _]]. exact H.
+    - apply v1_crash_states_last. }
+  destruct Hwf as [Hl [Hx0 Hok0]]. destruct Hi as [[Hlen Hb] [Hx [_ HP]]].
+  split; [lia|]. split; [exact Hx|]. intros slot Hs.
+  destruct (HP slot Hs) as [H|[e [H1 H2]]].
+  - specialize (Hok0 slot Hs). unfold v1_slot_ok in *. rewrite H.
+    destruct (v1_entry s0 slot) as [e|]; [|discriminate].
+    apply orb_true_iff in Hok0. apply orb_true_iff. destruct Hok0 as [A|A]; [left; exact A|right].
+    apply andb_true_iff in A. destruct A as [A B]. apply Z.leb_le in A.
+    destruct (rdnum (v1dat s0) e 4) as [size|] eqn:R; [|discriminate].
+    pose proof (rdnum_some_len _ _ _ _ R) as Hr. change (Z.of_nat 4) with 4 in Hr.
+    apply Z.leb_le in B.
+    assert (R' : rdnum (v1dat (v1_apply_all s0 ops)) e 4 = Some size).
+    { rewrite <- R. apply rdnum_ext; change (Z.of_nat 4) with 4; try lia.
+      intros i Hi. apply Hb. lia. }
+    rewrite R'. apply andb_true_iff. split; apply Z.leb_le; lia.
+  - unfold v1_slot_ok. rewrite H1. unfold v1_published in H2.
+    apply andb_true_iff in H2. destruct H2 as [A H2]. apply Z.leb_le in A.
+    destruct (rdnum (v1dat (v1_apply_all s0 ops)) e 4) as [size|]; [|discriminate].
+    rewrite !andb_true_iff in H2. destruct H2 as [[B C] D].
+    apply orb_true_iff. right. apply andb_true_iff.
+    split; [apply Z.leb_le; unfold V1_REC in *; lia|exact C].
+Qed.
+
+(* ------------------------------------------------------------------------------------------------ *)
+(* (c) the modelled writer obeys the discipline                                                     *)
+
+Fixpoint total_len (b : batch) : Z :=
+  match b with
+  | [] => 0
+  | e :: r => 4 + zlen (snd e) + total_len r
+  end.
+
+Lemma total_len_nonneg : forall b, 0 <= total_len b.
+Proof. induction b as [|e r IH]; cbn [total_len]; unfold zlen; lia. Qed.
+
+Lemma zlist_eqb_refl : forall a, zlist_eqb a a = true.
+Proof.
+  unfold zlist_eqb. induction a as [|x a IH]; [reflexivity|].
+  rewrite Z.eqb_refl, IH. reflexivity.
+Qed.
+
+Lemma v2_raw_ok_app : forall b L0 o1 o2 f,
+  v2_raw_ok b L0 f (o1 ++ o2) = v2_raw_ok b L0 f o1 && v2_raw_ok b L0 (bw_apply_all f o1) o2.
+Proof.
+  induction o1 as [|w r IH]; intros o2 f; [reflexivity|].
+  cbn [app v2_raw_ok bw_apply_all fold_left]. rewrite IH. rewrite andb_assoc. reflexivity.
+Qed.
+
+Lemma v2_step_append : forall b L0 f d, v2_step_ok b L0 f (flen f, d) = true.
+Proof. intros. unfold v2_step_ok. cbn [fst snd]. rewrite Z.eqb_refl. reflexivity. Qed.
+
+Lemma v2_step_header : forall b L0 f off d,
+  0 <= off -> off + zlen d <= 64 -> v2_step_ok b L0 f (off, d) = true.
+Proof.
+  intros b L0 f off d H1 H2. unfold v2_step_ok. cbn [fst snd].
+  destruct (off =? flen f); [reflexivity|].
+  replace (0 <=? off) with true by (symmetry; apply Z.leb_le; lia).
+  replace (off + zlen d <=? 64) with true by (symmetry; apply Z.leb_le; lia).
+  reflexivity.
+Qed.
+
+Lemma v2_step_publish : forall b L0 f slot v,
+  0 <= slot < SLOTS -> 0 <= v < 18446744073709551616 ->
+  v2_published b L0 f slot v = true ->
+  v2_step_ok b L0 f (64 + 8 * slot, le 8 v) = true.
+Proof.
+  intros b L0 f slot v Hs Hv Hp. unfold v2_step_ok. cbn [fst snd].
+  destruct (64 + 8 * slot =? flen f); [reflexivity|].
+  destruct ((0 <=? 64 + 8 * slot) && (64 + 8 * slot + zlen (le 8 v) <=? 64)); [reflexivity|].
+  rewrite zlen_le. change (Z.of_nat 8) with 8.
+  replace (64 + 8 * slot - 64) with (slot * 8) by lia.
+  rewrite Z.mod_mul, Z.div_mul by lia.
+  rewrite unle_le by (change (256 ^ Z.of_nat 8) with 18446744073709551616; exact Hv).
+  rewrite Hp, orb_true_r.
+  replace (64 <=? 64 + 8 * slot) with true by (symmetry; apply Z.leb_le; lia).
+  replace (64 + 8 * slot + 8 <=? V2_REC) with true
+    by (symmetry; apply Z.leb_le; unfold V2_REC, SLOTS in *; lia).
+  reflexivity.
+Qed.
+
+Lemma v2_tile_ops_flen : forall f slot d,
+  V2_REC <= flen f -> 0 <= slot < SLOTS ->
+  flen (bw_apply_all f (v2_tile_ops f slot d)) = flen f + 4 + zlen d.
+Proof.
+  intros f slot d Hf Hs. unfold v2_tile_ops.
+  assert (Hz : 0 <= zlen d) by (unfold zlen; lia).
+  destruct (_ <? zlen d);
+    cbn [app bw_apply_all fold_left]; unfold bw_apply; cbn [fst snd];
+    rewrite !flen_fwrite, !zlen_le;
+    change (Z.of_nat 4) with 4; change (Z.of_nat 8) with 8;
+    unfold V2_REC, SLOTS in *; lia.
+Qed.
+
+Lemma v2_tile_ops_ok : forall ball L0 f slot d,
+  V2_REC <= flen f -> L0 <= flen f -> flen f + 4 + zlen d <= P40 ->
+  0 <= slot < SLOTS -> d <> [] -> zlen d < 16777216 ->
+  In (slot, d) ball ->
+  v2_raw_ok ball L0 f (v2_tile_ops f slot d) = true.
+Proof.
+  intros ball L0 f slot d Hf HL Hg Hs Hd Hn Hin.
+  assert (Hz : 0 < zlen d).
+  { unfold zlen. destruct d; [congruence|cbn [length]; lia]. }
+  unfold v2_tile_ops.
+  set (L := flen f) in *. set (n := zlen d) in *.
+  set (old := match rdnum f 8 4 with Some v => v | None => 0 end).
+  change ([(L, le 4 n); (L + 4, d); (64 + 8 * slot, le 8 (L + 4 + n * P40))]
+            ++ (if old <? n then [(8, le 4 n)] else []) ++ [(24, le 8 (L + 4 + n))])
+    with ((L, le 4 n) :: (L + 4, d) :: (64 + 8 * slot, le 8 (L + 4 + n * P40))
+            :: ((if old <? n then [(8, le 4 n)] else []) ++ [(24, le 8 (L + 4 + n))])).
+  cbn [v2_raw_ok].
+  unfold bw_apply at 1 2 3. cbn [fst snd].
+  set (f1 := fwrite f L (le 4 n)).
+  set (f2 := fwrite f1 (L + 4) d).
+  assert (Hf1 : flen f1 = L + 4).
+  { unfold f1. rewrite flen_fwrite, zlen_le. change (Z.of_nat 4) with 4. fold L. lia. }
+  assert (Hf2 : flen f2 = L + 4 + n).
+  { unfold f2. rewrite flen_fwrite, Hf1. fold n. lia. }
+  rewrite !andb_true_iff. split; [|split; [|split]].
+  - apply v2_step_append.
+  - rewrite <- Hf1. apply v2_step_append.
+  - apply v2_step_publish; [exact Hs| |].
+    + unfold P40 in *. unfold V2_REC in *. nia.
+    + assert (E1 : (L + 4 + n * P40) / P40 = n).
+      { rewrite Z.div_add by (unfold P40; lia). rewrite Z.div_small; unfold V2_REC, P40 in *; lia. }
+      assert (E2 : (L + 4 + n * P40) mod P40 = L + 4).
+      { rewrite Z.mod_add by (unfold P40; lia). apply Z.mod_small. unfold V2_REC, P40 in *; lia. }
+      unfold v2_published. rewrite E1, E2.
+      replace (n =? 0) with false by (symmetry; apply Z.eqb_neq; lia).
+      replace (L0 <=? L + 4) with true by (symmetry; apply Z.leb_le; lia).
+      replace (L + 4 + n <=? flen f2) with true by (symmetry; apply Z.leb_le; lia).
+      cbn [negb andb].
+      replace (Z.to_nat n) with (length d) by (unfold n, zlen; lia).
+      unfold f2. rewrite fread_fwrite_same by (unfold V2_REC in *; lia).
+      unfold has_data. apply existsb_exists. exists (slot, d). split; [exact Hin|].
+      cbn [fst snd]. rewrite Z.eqb_refl, zlist_eqb_refl. reflexivity.
+  - destruct (old <? n); cbn [app v2_raw_ok]; rewrite !andb_true_iff; repeat split;
+      apply v2_step_header; rewrite ?zlen_le; try change (Z.of_nat 4) with 4;
+      try change (Z.of_nat 8) with 8; lia.
+Qed.
+
+Lemma v2_store_ops_valid_gen : forall bs ball L0 f,
+  incl bs ball -> V2_REC <= flen f -> L0 <= flen f -> flen f + total_len bs <= P40 ->
+  (forall slot d, In (slot, d) bs -> 0 <= slot < SLOTS /\ d <> [] /\ zlen d < 16777216) ->
+  v2_raw_ok ball L0 f (v2_store_ops f bs) = true.
+Proof.
+  induction bs as [|[slot d] r IH]; intros ball L0 f Hincl Hf HL Hg Hb; [reflexivity|].
+  cbn [v2_store_ops]. cbv zeta. rewrite v2_raw_ok_app.
+  cbn [total_len snd] in Hg. pose proof (total_len_nonneg r) as Hr.
+  assert (Hz : 0 <= zlen d) by (unfold zlen; lia).
+  destruct (Hb slot d (or_introl eq_refl)) as [Hs [Hd Hn]].
+  apply andb_true_iff. split.
+  - apply v2_tile_ops_ok; auto; try lia. apply Hincl. left. reflexivity.
+  - apply IH.
+    + intros e He. apply Hincl. right. exact He.
+    + rewrite v2_tile_ops_flen by assumption. lia.
+    + rewrite v2_tile_ops_flen by assumption. lia.
+    + rewrite v2_tile_ops_flen by assumption. lia.
+    + intros s' d' H'. apply Hb. right. exact H'.
+Qed.
+
+Theorem v2_store_ops_valid : forall b f0,
+  v2_wf f0 -> flen f0 + total_len b <= P40 ->
+  (forall slot d, In (slot, d) b -> 0 <= slot < SLOTS /\ d <> [] /\ zlen d < 16777216) ->
+  v2_raw_ok b (flen f0) f0 (v2_store_ops f0 b) = true.
+Proof.
+  intros b f0 [Hl _] Hg Hb. apply v2_store_ops_valid_gen; auto; try lia. apply incl_refl.
+Qed.
+
+(* the three results together, for the modelled writer *)
+Definition v2_batch_ok (b : batch) : Prop :=
+  forall slot d, In (slot, d) b ->
+    0 <= slot < SLOTS /\ d <> [] /\ zlen d < 16777216 /\ forall x, In x d -> 0 <= x < 256.
+
+Theorem v2_store_crash_safe : forall b f0 f' slot,
+  v2_wf f0 -> flen f0 + total_len b <= P40 -> v2_batch_ok b ->
+  In f' (v2_crash_states f0 (v2_store_ops f0 b)) -> 0 <= slot < SLOTS ->
+  v2_read f' slot = v2_read f0 slot \/
+  exists dd, has_data b slot dd = true /\ dd <> [] /\ v2_read f' slot = RData dd.
+Proof.
+  intros b f0 f' slot Hwf Hg Hb Hin Hs.
+  apply (v2_crash_safe b f0 (v2_store_ops f0 b)); auto.
+  - apply v2_store_ops_valid; auto. intros s d H. destruct (Hb s d H) as [A [B [C _]]]. auto.
+  - apply v2_store_ops_bytes_nonneg. intros [s d] He x Hx.
+    destruct (Hb s d He) as [_ [_ [_ D]]]. apply D. exact Hx.
+Qed.
+
+Theorem v2_store_wf : forall b f0,
+  v2_wf f0 -> flen f0 + total_len b <= P40 -> v2_batch_ok b ->
+  v2_wf (bw_apply_all f0 (v2_store_ops f0 b)).
+Proof.
+  intros b f0 Hwf Hg Hb. apply (v2_wf_preserved b); auto.
+  apply v2_store_ops_valid; auto. intros s d H. destruct (Hb s d H) as [A [B [C _]]]. auto.
+Qed.
+
